@@ -14,6 +14,20 @@ use libhaystack::encoding::zinc::encode::to_zinc_string;
 use serde_json::{json, Value as J};
 
 /// Direction 1: the text libhaystack emits is a sentence of the grammar denoting v.
+/// one size witness in both directions; signature by top-level kind only (the shape of a 1000-wide
+/// value is not a useful class)
+fn size_witness_case(i: usize, tier: Tier) -> Verdict {
+    let v = &u::size_witnesses_cached(tier)[i];
+    let class = format!("size-witness:{}", v.kind_name());
+    emitted_is_sentence(v).map_err(|(s, d)| (format!("{s}:{class}"), d.chars().take(500).collect()))?;
+    let text = zinc_ref::write_canonical(v);
+    match guarded(|| from_str(&text)) {
+        Ok(Ok(back)) => crate::model::v::same(v, &crate::model::v::from_lib(&back)).map_err(|d| (format!("d2-decoded-other-value[]:{class}"), d.chars().take(500).collect())),
+        Ok(Err(e)) => Err((format!("d2-decode-error[]:{class}"), e.to_string())),
+        Err(p) => Err((format!("d2-decode-panic[]:{class}"), p)),
+    }
+}
+
 pub fn emitted_is_sentence(v: &V) -> Verdict {
     let lv = to_lib(v);
     let text = match guarded(|| to_zinc_string(&lv)) {
@@ -151,6 +165,18 @@ pub fn run(tier: Tier) -> i32 {
     });
     run.absorb(l);
 
+    // size witnesses: the library's text is a sentence denoting the value, and the reference
+    // writer's canonical text decodes to it
+    let nsw = u::size_witnesses_cached(tier).len();
+    let l = crate::engine::par_for_stack(nsw, 64 << 20, |i, local| {
+        local.eval();
+        local.count("size-witnesses");
+        if let Err((sig, d)) = size_witness_case(i, tier) {
+            local.fail(&sig, json!({"size_witness": i, "tier": tier.name()}), d);
+        }
+    });
+    run.absorb(l);
+
     // ---- direction 2
     // (a) every scalar: all spellings with <= 2 deviations; unbounded when the space is small
     let sc2 = u::scalars(Tier::Quick);
@@ -197,6 +223,18 @@ pub fn run(tier: Tier) -> i32 {
         local.count("d2-core-bound2");
     });
     run.absorb(l);
+    // three deviations at once on a small kind-complete set (thorough: also the pool containers)
+    let mut b3: Vec<V> = u::pool_scalars();
+    b3.extend([u::small_grid(), u::meta_grid(), V::dict(&[("a", V::num(1.0)), ("b", V::Marker)]), V::List(vec![V::num(1.0), V::str("s")])]);
+    if tier == Tier::Thorough {
+        b3.extend(u::pool_containers1());
+        b3.extend(core_grids());
+    }
+    let l = par_for(b3.len(), |i, local| {
+        check_spellings(&b3[i], Some(3), tier.pick(400_000, 8_000_000), local);
+        local.count("d2-bound3");
+    });
+    run.absorb(l);
     if tier == Tier::Thorough {
         let sct = u::scalars(Tier::Thorough);
         let l = par_for(sct.len(), |i, local| {
@@ -219,7 +257,7 @@ pub fn run(tier: Tier) -> i32 {
     }
     run.exhaustive = run.counter("capped-values") == 0;
     run.note("deviation_bounds_completed", json!({"scalars": 2, "scalars_small_space": "unbounded", "containers": 1, "core": 2, "values_capped": run.counter("capped-values")}));
-    for t in ["crlf", "comma-space", "escape-spelling", "number-spelling", "dict-separator", "trailing-comma", "marker-spelling", "utc-spelling", "fraction-digits", "trailing-blank-line", "newline-after-<<", "meta-space", "zero-offset-spelling", "space-before-comma", "list-inner-space", "dict-inner-space"] {
+    for t in ["crlf", "comma-space", "escape-spelling", "number-spelling", "dict-separator", "trailing-comma", "marker-spelling", "utc-spelling", "fraction-digits", "trailing-blank-line", "newline-after-<<", "meta-space", "zero-offset-spelling", "space-before-comma", "list-inner-space", "dict-inner-space", "utc-fields-with-zone"] {
         run.require(run.counter(&format!("deviated:{t}")) > 0, &format!("choice-point type {t} never deviated"));
     }
     run.require(run.counter("d1-values") > 50_000, "direction 1 too small");
@@ -232,6 +270,10 @@ pub fn run(tier: Tier) -> i32 {
 }
 
 pub fn replay(case: &J) -> Verdict {
+    if let Some(i) = case["size_witness"].as_u64() {
+        let tier = if case["tier"] == "thorough" { Tier::Thorough } else { Tier::Quick };
+        return size_witness_case(i as usize, tier);
+    }
     let v = from_json(&case["value"]);
     if let Some(ch) = case.get("choices").and_then(|c| c.as_array()) {
         let choices: Vec<u32> = ch.iter().map(|x| x.as_u64().unwrap_or(0) as u32).collect();
